@@ -249,6 +249,41 @@ func (logArea) Gen(r *hx.Rng, n int, _ string, emit func(string)) {
 			anyHeld := len(held) > 0
 			c := r.Intn(100)
 			switch {
+			case c >= 92 && !anyHeld:
+				// one fan-out handler takes several records in a row while the set of failing children varies; its first
+				// child keeps returning its sentinel *errs.Error (an aggregate must never be built INTO a child's error)
+				var ml []ghandler
+				for _, x := range hs {
+					if x.multi && len(x.sinks) >= 2 {
+						ml = append(ml, x)
+					}
+				}
+				if len(ml) == 0 {
+					addRoot()
+					continue
+				}
+				m := hx.Pick(r, ml)
+				out("mode " + strconv.Itoa(m.sinks[0]) + " fails")
+				for k := r.Range(3, 7); k > 0 && left > 0; k-- {
+					for _, sk := range m.sinks[1:] {
+						if sk == m.sinks[0] || r.Chance(1, 3) {
+							continue
+						}
+						md := hx.Pick(r, []string{"ok", "ok", "fail", "faile", "fails", "panic"})
+						if buffered[sk] > 0 && md == "panic" {
+							md = "fail"
+						}
+						out("mode " + strconv.Itoa(sk) + " " + md)
+					}
+					if r.Chance(1, 6) {
+						out("mode " + strconv.Itoa(m.sinks[0]) + " " + hx.Pick(r, []string{"ok", "fails", "fails"}))
+					}
+					sec, nsec := 1700000000+int64(r.Intn(40000000)), int64(r.Intn(1000000000))
+					w := []string{"log", m.name, strconv.Itoa(hx.Pick(r, []int{8, 8, 9, 12, 100, 4, 0})), hexs(stampTok(mkTime(sec, nsec, 0))),
+						strconv.FormatInt(sec, 10), strconv.FormatInt(nsec, 10), "0", hexs(hx.Pick(r, msgs))}
+					w = append(w, genAttrs(r, 2, true)...)
+					out(strings.Join(w, " "))
+				}
 			case c < 4 && nextS < 6:
 				addRoot()
 			case c < 9:
@@ -289,7 +324,7 @@ func (logArea) Gen(r *hx.Rng, n int, _ string, emit func(string)) {
 				out("en " + h.name + " " + strconv.Itoa(hx.Pick(r, levels)))
 			case c < 52:
 				s := r.Range(1, nextS-1)
-				m := hx.Pick(r, []string{"ok", "fail", "fail", "panic", "panice"})
+				m := hx.Pick(r, []string{"ok", "fail", "faile", "fails", "fails", "panic", "panice"})
 				if buffered[s] > 0 && strings.HasPrefix(m, "panic") {
 					m = "fail"
 				}
